@@ -51,7 +51,7 @@ func checkC13(c c13Case, ctx *vCtx) *vFailure {
 		r := vRunApp(vInvocation{Args: append(append([]string{}, base...), args...), TZ: c.TZ})
 		ctx.Run(1)
 		if r.Failed {
-			vFault("C13: %v failed on valid input: %s", args, r)
+			vViolate("C13: %v failed on valid input: %s", args, r)
 		}
 		return r.Stdout
 	}
@@ -335,7 +335,7 @@ func checkC14(c c14Case, ctx *vCtx) *vFailure {
 	c1 := run(lp, true, "csv", "log")
 	c2 := run(pp, false, "csv", "log")
 	if c1.Failed {
-		vFault("C14: csv log failed on the original: %s", c1)
+		vViolate("C14: csv log failed on the original: %s", c1)
 	}
 	if c2.Failed {
 		return vFailSig(sigDate, "the tool cannot read back what print wrote under the same options (%v %v): %s\nprinted log:\n%s", opts, env, c2.Err, vTrunc(p1.Stdout, 1500))
